@@ -2,7 +2,6 @@ module verif
 
 go 1.26.5
 
-
 require (
 	cloud.google.com/go/storage v1.62.3
 	github.com/BurntSushi/toml v1.6.0
@@ -350,7 +349,7 @@ require (
 	github.com/x448/float16 v0.8.4 // indirect
 	github.com/xlab/treeprint v1.2.0 // indirect
 	github.com/yusufpapurcu/wmi v1.2.4 // indirect
-	github.com/zeebo/xxh3 v1.1.0 // indirect
+	github.com/zeebo/xxh3 v1.1.0
 	go.opencensus.io v0.24.0 // indirect
 	go.opentelemetry.io/auto/sdk v1.2.1 // indirect
 	go.opentelemetry.io/contrib/detectors/gcp v1.43.0 // indirect
@@ -449,6 +448,9 @@ replace (
 )
 
 require github.com/projectcalico/calico v0.0.0
+
 replace github.com/projectcalico/calico => /repo
+
 require github.com/anishathalye/porcupine v1.3.0
+
 require go.etcd.io/gofail v0.2.0
